@@ -163,7 +163,7 @@ def decide_refuted(rep, mod, c, bn, obs):
             confirmed = (o, rr)
             break
         spurious += 1
-    top_level = obs[0]['kind'] in ('post', 'frame', 'fact', 'lemma', 'assert')
+    top_level = obs[0]['kind'] in ('post', 'frame', 'fact', 'lemma', 'assert', 'site')
     if confirmed:
         o, rr = confirmed
         path = write_replay(rep.pid, key, {
